@@ -198,3 +198,85 @@ func VH_C17_Unresolved() {
 		symAssert(errors.Is(err, ErrTemplateNotFound), "missing-template-matches-ErrTemplateNotFound")
 	}
 }
+
+// ---- C17.reload: loader failures when a cached template is re-read --------------------------------
+
+type vhFaultTSLoader struct {
+	vhFaultLoader
+	ts map[string]int64
+}
+
+func (l *vhFaultTSLoader) GetModifiedTime(name string) (int64, error) {
+	if _, ok := l.tpl[name]; !ok {
+		return 0, ErrTemplateNotFound
+	}
+	return l.ts[name], nil
+}
+
+var vhC17Reload = []struct{ main, want string }{
+	{"L1", "l1v"},
+	{"{% include 'L1' %}", "l1v"},
+	{"{% extends 'L2' %}{% block b %}c{% endblock %}", "<c>"},
+	{"{% import 'L3' as l %}{{ l.m(x) }}", "(v)"},
+	{"{% for i in [1, 2] %}{% include 'L1' %}{% endfor %}", "l1vl1v"},
+}
+
+// VH_C17_Reload: an engine with auto-reload renders the same template R times; before each render
+// the loader's timestamps may move forward (so the cached copy is re-read), and the k-th read of the
+// loader fails with a non-"not found" cause. The render during which the read failed returns that
+// cause and no output, whatever is cached from earlier renders; the others succeed.
+func VH_C17_Reload() {
+	r := symParam("R", 3)
+	t := symChoice(len(vhC17Reload))
+	symTag("tpl:" + vhC17Reload[t].main)
+	k := symInt()
+	symAssume(k >= 0 && k <= 6)
+	calls := 0
+	failedNow := false
+	ld := &vhFaultTSLoader{ts: map[string]int64{"L1": 10, "L2": 10, "L3": 10}}
+	ld.tpl = map[string]string{"L1": "l1{{ x }}", "L2": "<{% block b %}d{% endblock %}>", "L3": "{% macro m(p) %}({{ p }}){% endmacro %}"}
+	ld.tick = func() bool {
+		calls++
+		if calls == k {
+			failedNow = true
+			return true
+		}
+		return false
+	}
+	e := New()
+	e.SetAutoReload(true)
+	e.RegisterLoader(ld)
+	name := vhC17Reload[t].main
+	if t > 0 {
+		if e.RegisterString("t", name) != nil {
+			symAssert(false, "corpus-template-parses")
+			return
+		}
+		name = "t"
+	}
+	hist := ""
+	for i := 0; i < r; i++ {
+		if i > 0 && symBool() {
+			for n := range ld.ts {
+				ld.ts[n] += 5
+			}
+			hist += "T"
+		}
+		failedNow = false
+		out, err := e.Render(name, map[string]interface{}{"x": "v"})
+		if failedNow {
+			hist += "F"
+			symCover("fault-fired")
+			symAssert(err != nil, "failure-surfaces-as-error")
+			symAssert(out == "", "no-output-with-error")
+			if err != nil {
+				symAssert(errors.Is(err, vhSentinel), "cause-reachable-with-errors-Is")
+			}
+		} else {
+			hist += "r"
+			symAssert(err == nil && out == vhC17Reload[t].want, "no-spurious-error")
+		}
+	}
+	symTag("hist:" + hist)
+	symCover("rendered")
+}
